@@ -84,12 +84,12 @@ func zvC28NewWorld(cfg zvC28Cfg) *zvC28World {
 	}
 	if cfg.V6 {
 		w.nlri = [2]zvBmpNLRI{{Len: 48, Addr: []byte{0x20, 0x01, 0x0d, 0xb8, 0, 1}, V6: true}, {Len: 64, Addr: []byte{0x20, 0x01, 0x0d, 0xb8, 0, 1, 0, 1}, V6: true}}
-		w.pfxStr[0] = bnet.NewPfx(bnet.IPv6FromBlocks(0x2001, 0xdb8, 1, 0, 0, 0, 0, 0), 48).String()
-		w.pfxStr[1] = bnet.NewPfx(bnet.IPv6FromBlocks(0x2001, 0xdb8, 1, 1, 0, 0, 0, 0), 64).String()
+		w.pfxStr[0] = bnet.NewPfx(bnet.IPv6FromBlocks(0x2001, 0xdb8, 1, 0, 0, 0, 0, 0), 48).Ptr().String()
+		w.pfxStr[1] = bnet.NewPfx(bnet.IPv6FromBlocks(0x2001, 0xdb8, 1, 1, 0, 0, 0, 0), 64).Ptr().String()
 	} else {
 		w.nlri = [2]zvBmpNLRI{{Len: 16, Addr: []byte{10, 1}}, {Len: 24, Addr: []byte{10, 1, 1}}}
-		w.pfxStr[0] = bnet.NewPfx(bnet.IPv4FromOctets(10, 1, 0, 0), 16).String()
-		w.pfxStr[1] = bnet.NewPfx(bnet.IPv4FromOctets(10, 1, 1, 0), 24).String()
+		w.pfxStr[0] = bnet.NewPfx(bnet.IPv4FromOctets(10, 1, 0, 0), 16).Ptr().String()
+		w.pfxStr[1] = bnet.NewPfx(bnet.IPv4FromOctets(10, 1, 1, 0), 24).Ptr().String()
 	}
 	if cfg.AddPath {
 		w.slots = []zvC28Slot{{0, 1}, {0, 2}, {1, 1}}
@@ -408,9 +408,9 @@ func (x *zvC28Run) canon(m *zvC28Model) string {
 }
 
 type zvC28Case struct {
-	Cfg  zvC28Cfg   `json:"config"`
-	Hist []zvC28Ev  `json:"history"`
-	Text string     `json:"history_text"`
+	Cfg  zvC28Cfg  `json:"config"`
+	Hist []zvC28Ev `json:"history"`
+	Text string    `json:"history_text"`
 }
 
 func zvC28HistText(h []zvC28Ev) string {
@@ -607,7 +607,7 @@ func zvC28Step(r *vh.Run, w *zvC28World, hist []zvC28Ev) (canon string, enabled 
 				}
 				next++
 			}
-			if isLastSeg && next == len(steps) || (next == len(steps)-1 && hist[steps[next].ev].K == "loss" && isLastSeg && false) {
+			if isLastSeg && next == len(steps) {
 				// state after the last event of the history, still inside the connection
 				if p := zvBmpCatch(func() { check("live") }); p != nil {
 					viol(vh.Sig("clause", "panic", "site", p.Site, "last", last), "inspecting the tables after [%s] panicked in %s: %s", c.Text, p.Site, p.Text)
@@ -682,10 +682,7 @@ func TestVerifC28(t *testing.T) {
 		var c zvC28Case
 		r.ReplayCase(&c)
 		w := zvC28NewWorld(c.Cfg)
-		for n := 0; n <= len(c.Hist); n++ {
-			if n < len(c.Hist) && n > 0 && c.Hist[n].K != "connect" && !zvC28Complete(c.Hist[:n]) {
-				continue
-			}
+		for n := 0; n <= len(c.Hist); n++ { // every prefix of a history is a history
 			zvC28Step(r, w, c.Hist[:n])
 		}
 		for _, k := range zvC28Required {
@@ -717,6 +714,3 @@ func TestVerifC28(t *testing.T) {
 		r.Nontrivial(1)
 	}
 }
-
-// zvC28Complete: every prefix of a history is itself a history.
-func zvC28Complete([]zvC28Ev) bool { return true }
